@@ -5,15 +5,18 @@
  * Ghost cell: g_i = NEW number of an own vector (or the vanished last number), g_c = a cross vector.  g_src is the OLD number of
  * the vector that the reference model puts at g_i.  The precondition is the LP's representation invariant
  *      (sizes legal, stored indices in range, no index twice in a vector, both files mirror images of each other)
- * INSTANTIATED at the vectors j, last, g_src of the own file and g_c of the cross file (plus legal sizes of the cross vectors that
- * own vectors j and last refer to) - a weaker precondition than the full invariant, hence a stronger theorem.
+ * INSTANTIATED at the vectors j, last, g_src of the own file and g_c of the cross file - a weaker precondition than the full
+ * invariant, hence a stronger theorem.
  * Postcondition = the mirror property at the ghost cell in the new numbering, tied to the reference model:
  *      cross vector g_c has an entry for own vector g_i with value v   <=>   OLD own vector g_src had an entry g_c with value v
  *                                                                       <=>   NEW own vector g_i has an entry g_c with value v,
  * no stored index of g_c refers to a number that no longer exists, no index twice, and g_c lost exactly the entry of old vector j. */
 #include "mirror_spec.h"
 int g_rm_calls, g_rm_arg, g_rm_set, g_add_r, g_add_c, g_eps, g_sv, g_newnum; const int* gp_cnt;
-int g_i, g_c, g_src, g_n0, g_last, g_has, g_v, g_hadj, g_cs0;
+int *gp_om, *gp_os, *gp_cm, *gp_cs, *gp_perm; void* gp_xpool; int g_pos_i, g_pos_n; int* gp_pe;
+int g_i, g_c, g_src, g_j, g_n0, g_last, g_has, g_v, g_hadj, g_cs0;
+/* old content of cross vector g_c, looked up at the indices g_i, j, last (specification ghosts for the loop invariants) */
+int g_oh, g_ov, g_ohj, g_ohl, g_ovl;
 #ifdef REMROW
 #define OWNSET 0
 #else
@@ -25,17 +28,19 @@ __CPROVER_requires(__CPROVER_is_fresh(om, FILE_INTS * sizeof(int)) && __CPROVER_
 __CPROVER_requires(__CPROVER_is_fresh(cm, FILE_INTS * sizeof(int)) && __CPROVER_is_fresh(cs, CAP * sizeof(int)))
 __CPROVER_requires(__CPROVER_is_fresh(nown, sizeof(int)) && __CPROVER_is_fresh(ncross, sizeof(int)))
 __CPROVER_requires(1 <= *nown && *nown <= CAP && 0 <= *ncross && *ncross <= CAP && 0 <= j && j < *nown)
-__CPROVER_requires(g_n0 == *nown && g_last == *nown - 1 && g_rm_calls == 0)
+__CPROVER_requires(g_n0 == *nown && g_last == *nown - 1 && g_j == j && g_rm_calls == 0)
 /* representation invariant at own vectors j and last (the two the operation is about) */
 __CPROVER_requires(SIZEOK(os, j) && SIZEOK(os, g_last) && INRANGE(om, os, j, *ncross) && INRANGE(om, os, g_last, *ncross))
-__CPROVER_requires(XSIZEOK(om, os, j, cs) && XSIZEOK(om, os, g_last, cs))
 /* ghost cell and the invariant there */
 __CPROVER_requires(0 <= g_i && g_i < *nown && 0 <= g_c && g_c < *ncross && g_src == (g_i == j ? g_last : g_i))
 __CPROVER_requires(SIZEOK(os, g_src) && SIZEOK(cs, g_c) && INRANGE(cm, cs, g_c, *nown) && NODUP(cm, cs, g_c))
 __CPROVER_requires(MIRROR(om, os, j, cm, cs, g_c) && MIRROR(om, os, g_last, cm, cs, g_c) && MIRROR(om, os, g_src, cm, cs, g_c))
 /* what the reference model predicts for the ghost cell */
 __CPROVER_requires(g_has == HAS(om, os, g_src, g_c) && g_v == VALOF(om, os, g_src, g_c) && g_hadj == HAS(om, os, j, g_c) && g_cs0 == cs[g_c])
-__CPROVER_assigns(g_rm_calls, g_rm_arg, g_rm_set, *nown, __CPROVER_object_whole(om), __CPROVER_object_whole(os),
+/* definitions of the invariant ghosts */
+__CPROVER_requires(g_oh == HAS(cm, cs, g_c, g_i) && g_ov == VALOF(cm, cs, g_c, g_i) && g_ohj == HAS(cm, cs, g_c, j))
+__CPROVER_requires(g_ohl == HAS(cm, cs, g_c, g_last) && g_ovl == VALOF(cm, cs, g_c, g_last))
+__CPROVER_assigns(g_rm_calls, g_rm_arg, g_rm_set, gp_om, gp_os, gp_cm, gp_cs, gp_xpool, g_pos_i, g_pos_n, gp_pe, *nown, __CPROVER_object_whole(om), __CPROVER_object_whole(os),
                   __CPROVER_object_whole(cm), __CPROVER_object_whole(cs))
 /* the own set's remove(j) is called exactly once, with j; one vector less; the cross count is untouched */
 __CPROVER_ensures(g_rm_calls == 1 && g_rm_arg == j && g_rm_set == OWNSET && *nown == g_n0 - 1)
@@ -49,8 +54,9 @@ __CPROVER_ensures(SIZEOK(cs, g_c) && INRANGE(cm, cs, g_c, *nown) && NODUP(cm, cs
 void h_rm(void)
 {
    int *om, *os, *cm, *cs, *nown, *ncross; int j;
-   g_rm_calls = nondet_int(); g_i = nondet_int(); g_c = nondet_int(); g_src = nondet_int(); g_n0 = nondet_int(); g_last = nondet_int();
+   g_rm_calls = nondet_int(); g_i = nondet_int(); g_c = nondet_int(); g_src = nondet_int(); g_j = nondet_int(); g_n0 = nondet_int(); g_last = nondet_int();
    g_has = nondet_int(); g_v = nondet_int(); g_hadj = nondet_int(); g_cs0 = nondet_int();
+   g_oh = nondet_int(); g_ov = nondet_int(); g_ohj = nondet_int(); g_ohl = nondet_int(); g_ovl = nondet_int();
    w_rm(om, os, cm, cs, nown, ncross, j);
    CANARY();
 }
